@@ -16,6 +16,11 @@ HARNESSES = [
     bounds='aggregate of %d integer elements, values -999..9999 symbolic' % n,
     samples=[{'v': 5}], out_of_claim='values beyond the range', **dict(AG, models=['lib/cmodels/cxx_rt.c', 'lib/cmodels/printf_null.c', 'lib/cmodels/sprintf_only.c'])) for n in (1,)
 ] + [
+  H('aggr_ints_wide', 'irc', 'harness/C01/h_aggr_int_wide.c', defs={'VSTR_CAP': 28, 'VSTREAM_CAP': 8, 'VOSTREAM_CAP': 32, 'VCONT_CAP': 4}, unwind=52, timeout={'quick': 900, 'thorough': 1800},
+    bounds='aggregate of one integer element of 10..18 symbolic decimal digits with optional sign',
+    samples=[dict({'dg[%d]' % i: d for i, d in enumerate([1, 2, 3, 4, 5, 6, 7, 8, 9, 0, 1, 2, 0, 0, 0, 0, 0, 0])}, nd=12, neg=0), dict({'dg[%d]' % i: d for i, d in enumerate([9, 9, 9, 9, 9, 9, 9, 9, 9, 9, 9, 0, 0, 0, 0, 0, 0, 0])}, nd=11, neg=1)], out_of_claim='several long elements, 19-digit values',
+    **dict(AG, models=['lib/cmodels/cxx_rt.c', 'lib/cmodels/printf_null.c'], stubs=AG['stubs'] + ['sprintf/snprintf("%ld"): harness stubs that write the digits the value was built from (value checked), snprintf truncating to its size'])),
+] + [
   H('aggr_ints_unset_n%d' % n, 'irc', 'harness/C01/h_aggr_int_unset.c', timeout={'quick': 900, 'thorough': 1800}, defs={'NN': n, 'VSTR_CAP': 24, 'VSTREAM_CAP': 8, 'VOSTREAM_CAP': 28, 'VCONT_CAP': 4}, unwind=52,
     bounds='aggregate of %d integer elements, each a symbolic one-digit value or unset (symbolic mask)' % n,
     samples=[{'d': 5, 'unset': 2}, {'d': 7, 'unset': 0}], out_of_claim='multi-digit values (aggr_ints_n1), reading back', **dict(AG, models=['lib/cmodels/cxx_rt.c', 'lib/cmodels/printf_null.c', 'lib/cmodels/sprintf_digit.c'], stubs=AG['stubs'] + ['sprintf: "%ld" of a one-digit value only (sprintf_digit.c); other values cut the path'])) for n in (2, 3)
